@@ -8,7 +8,7 @@
    Release parked before its removeRef section, no WaitWithReleased goroutine parked).  "Never deadlock": every API
    call is one total section of the model (the mutex is never held across a gate), so nothing can block a call. *)
 From Util Require Import Common.Base Common.ListLemmas RefCount.Model RefCount.Proofs RefCount.ProofsC08 RefCount.ProofsC09.
-From Util Require Import RefCount.Spec RefCount.ProofsMon RefCount.ProofsMon2 RefCount.ProofsMonThm.
+From Util Require Import RefCount.Spec RefCount.ProofsMon RefCount.ProofsMon2 RefCount.ProofsMonThm RefCount.ProofsMonThm2.
 
 (* the resolver is never running in two calls at once; even stronger, from entering the resolver to the end of the
    store section *)
@@ -135,21 +135,26 @@ Example c09_example_cancelled_root_no_progress :
 Proof. split; [repeat constructor; discriminate | vm_compute; repeat split; reflexivity]. Qed.
 
 (* ---- the monitors that are evaluated on the implementation's traces, tied to this model ----
-   For EVERY configuration the codec accepts and EVERY list of harness events: on the observations the model itself produces
-   (eager schedule of Spec.hstep; the run stops at the first event the model does not accept) no monitor clause in [proved]
-   is ever false: clauses 9.1 (one resolver call at a time), 9.2 (AddRef never panics), 9.3 (in progress or delivered at rest), 9.4 and 9.5 (released() restarts) (and (p, 9): the model's observations always parse).  [mon_only keep] is [Spec.mon] with the reported clauses filtered
-   by [keep]; [proved] is the list below.  So these monitors cannot raise an alarm on an implementation that behaves like the
-   model, and the model satisfies the property in exactly the form the checks evaluate it. *)
+   THE FULL STATEMENT.  For EVERY configuration the codec accepts and EVERY list of harness events: on the observations the model
+   itself produces (eager schedule of Spec.hstep; the run stops at the first event the model does not accept) the monitors
+   [Spec.mon] - ALL clauses of C08, C09 and C10, nothing filtered - report nothing; in particular the clauses 9.1 (one resolver call at a time), 9.2 (AddRef never panics), 9.3 (in progress or delivered at rest), 9.4 and 9.5 (released() restarts)
+   (and the model's observations always parse).  So these monitors cannot raise an alarm on an implementation that behaves like
+   the model, and the model satisfies the property in exactly the form the checks evaluate it.  (In the constant-value
+   configuration [k; 1] Spec.mon judges only the Access clauses of C10.) *)
+Theorem c09_model_satisfies_monitors : forall cfg evs,
+  monitor mon 0 (minit cfg) [] evs (run_obs step_opt (hinit cfg) evs) = [].
+Proof. exact model_satisfies_monitors. Qed.
+Print Assumptions c09_model_satisfies_monitors.
+
+(* hence the extracted checker [run_check_refcount] reports nothing at all on any history that the model accepts completely *)
+Theorem c09_model_run_check_clean : forall cfg evs,
+  length (run_obs step_opt (hinit cfg) evs) = length evs ->
+  run_check_refcount cfg evs (run_obs step_opt (hinit cfg) evs) = [].
+Proof. exact model_run_check_clean. Qed.
+Print Assumptions c09_model_run_check_clean.
+
+(* the clause-wise corollary (kept: the partial statement the full one supersedes) *)
 Theorem c09_model_satisfies_monitors_clauses : forall cfg evs,
   monitor (mon_only proved) 0 (minit cfg) [] evs (run_obs step_opt (hinit cfg) evs) = [].
 Proof. exact model_satisfies_monitors_clauses. Qed.
 Print Assumptions c09_model_satisfies_monitors_clauses.
-
-Theorem c09_model_run_check_clean_clauses : forall cfg evs,
-  length (run_obs step_opt (hinit cfg) evs) = length evs ->
-  run_check step_opt (mon_only proved) (hinit cfg) (minit cfg) evs (run_obs step_opt (hinit cfg) evs) = [].
-Proof. exact model_run_check_clean_clauses. Qed.
-Print Assumptions c09_model_run_check_clean_clauses.
-
-Example c09_proved_clauses : forallb proved [(9, 1); (9, 2); (9, 3); (9, 4); (9, 5); (9, 9)]%nat = true.
-Proof. reflexivity. Qed.
